@@ -37,8 +37,8 @@ PROFILES = {
 def draw_cfg(rng, prop: str, tier: str, overrides=None) -> dict:
     cfg = {}
     # slots: primary + optional secondary + optional scratch
-    names = ["plain", "hook", "typed", "fwd", "sub", "tsub"]
-    weights = [40, 15, 20, 5, 10, 10]
+    names = ["plain", "hook", "typed", "fwd", "sub", "tsub", "thook"]
+    weights = [40, 15, 20, 5, 10, 10, 6]
     if prop in ("C05", "C12"):
         names.append("fs")
         weights.append(12)
@@ -48,7 +48,7 @@ def draw_cfg(rng, prop: str, tier: str, overrides=None) -> dict:
     if r < 0.6:
         if primary == "fs":
             second = "fs"
-        elif primary in ("typed", "tsub"):
+        elif primary in ("typed", "tsub", "thook"):
             second = rng.choice(["typed", "typed", "plain"])
         else:
             second = rng.choice(["plain", "plain", "hook", "sub", "typed"])
@@ -56,6 +56,9 @@ def draw_cfg(rng, prop: str, tier: str, overrides=None) -> dict:
     cfg["slots"] = slots
     n_labels = rng.choice([2, 3, 3, 4, 6, 8])
     cfg["labels"] = list(LABELS[:n_labels])
+    if primary in ("hook", "thook"):
+        # case variants are clones under the case-insensitive id callback
+        cfg["labels"] = cfg["labels"][:3] + [c.upper() for c in cfg["labels"][:2]]
     flav = ["s"]
     for f, p in (("i", 0.3), ("t", 0.35), ("d", 0.3), ("w", 0.3), ("o", 0.35)):
         if rng.random() < p:
@@ -76,6 +79,8 @@ def draw_cfg(rng, prop: str, tier: str, overrides=None) -> dict:
     if prop == "C07":
         cfg["p_node_src"] = rng.choice([0.22, 0.35])
         cfg["p_tree_src"] = rng.choice([0.06, 0.15, 0.25])
+    if prop in ("C13", "C03"):
+        cfg["p_tree_src"] = rng.choice([0.06, 0.15])
     w = dict(BASE_WEIGHTS)
     for k, mul in PROFILES.get(prop, {}).items():
         w[k] = w.get(k, 1) * mul
@@ -179,7 +184,15 @@ def pick_before(rng, P: MNode, allow_int=True):
 
 def other_node_not_child(rng, w: World, si: int, P: MNode):
     cands = [m for m in nodes_of(w, si) if m.parent is not P]
-    return rng.choice(cands) if cands else None
+    if not cands:
+        return None
+    # prefer a foreign node that equals (same data / data_id) one of P's children:
+    # validation by `in`/`==` instead of identity would let it pass
+    kid_ids = {c.did for c in P.children}
+    alike = [m for m in cands if m.did in kid_ids]
+    if alike and rng.random() < 0.6:
+        return rng.choice(alike)
+    return rng.choice(cands)
 
 
 # ------------------------------------------------------------------------------
@@ -216,7 +229,17 @@ def gen_add(rng, cfg, w: World, opid: int, invalid: bool, steer: bool):
         src_kind = "node"
     elif r < p_node + p_tree and api == "add" and len(live_slots(w)) > 1:
         src_kind = "tree"
-    if steer and P.children:
+    tree_collide = []
+    if steer and P.children and api == "add":
+        kid_ids = {c.did for c in P.children}
+        for j in live_slots(w):
+            if j != si and any(t.did in kid_ids for t in w.slots[j].model.root.children):
+                tree_collide.append(j)
+    if tree_collide and rng.random() < 0.7:
+        # collision steering: a whole tree one of whose top nodes collides
+        op["src"] = {"tree": f"T{rng.choice(tree_collide)}"}
+        src_kind = None
+    elif steer and P.children:
         # collision steering: re-use a child's data / copy a child's clone
         c = rng.choice(P.children)
         if rng.random() < 0.6:
@@ -579,6 +602,8 @@ def gen_restart(rng, cfg, w: World, opid, invalid, steer):
     via = cfg.get("restart_via") or rng.choice(["file", "file", "dict"])
     op["via"] = via
     op["mapper_style"] = rng.choice(["inplace_ret", "inplace_none", "new"])
+    if rng.random() < 0.3:
+        op["deser_style"] = "consume"
     if via == "dict":
         op["json"] = rng.random() < 0.5
         op["with_mapper"] = rng.random() < 0.3
